@@ -76,6 +76,9 @@ def signature(case, verdict):
     if selfx or f.get("closed") == "1":
         # single-sided buffers / offset curves of linework that is closed or not simple: one class per call
         return {"mode": mode, "simpleOpenLines": False}
+    if clause == "side-end":
+        # a vertex on the wrong side within the distance of a line end: the cap edge of the two-sided buffer was kept
+        return {"mode": mode, "clause": "cap-edge-kept", "simpleOpenLines": True}
     if clause in ("far", "near", "side", "band-in", "band-out"):
         return {"mode": mode, "clause": "shape", "reg": f.get("reg", "?"), "simpleOpenLines": True}
     return {"mode": mode, "clause": clause, "simpleOpenLines": True}
@@ -126,6 +129,38 @@ def describe(case, verdict):
     out = {"input_wkt": gtok.wkt(p[1])[:4000], "call": kv.get("mode"), "distance": dec(kv["d"]) if "d" in kv else None,
            "quadsegs": kv.get("q"), "cap": kv.get("cap"), "join": kv.get("join"), "mitre": dec(kv["mitre"]) if "mitre" in kv else None,
            "single_sided": kv.get("ss"), "verdict": verdict}
+    return out
+
+
+def all_disagreements(ctx, stream, first):
+    """verif.run_stream keeps the first 50 disagreements only; known findings would crowd out new ones, so read the shard files
+    and return one representative per signature (plus everything that is not a `bad` verdict)"""
+    out, seen = [], []
+    files = sorted(glob.glob(os.path.join(ctx.work, stream + ".*.cases")))
+    if not files:
+        return first
+    for fc in files:
+        base = fc[:-6]
+        try:
+            cases = open(fc, errors="replace").read().split("\n")
+            exp = open(base + ".expect", errors="replace").read().split("\n")
+            got = open(base + ".got", errors="replace").read().split("\n")
+        except OSError:
+            continue
+        for i, (c, e_, g) in enumerate(zip(cases, exp, got)):
+            if not c or e_ == g:
+                continue
+            if g.startswith("bad"):
+                try:
+                    sg = signature(c, g)
+                except Exception:
+                    sg = g
+                if sg in seen:
+                    continue
+                seen.append(sg)
+            elif len(out) > 200:
+                continue
+            out.append((i, c, e_, g))
     return out
 
 
@@ -267,7 +302,7 @@ def run(ctx):
             corr["buffer"]["sample_locations"] = {"error": repr(ex)}
     seen = []
     shrunk = 0
-    for idx, case, exp, got in r["disagreements"]:
+    for idx, case, exp, got in all_disagreements(ctx, "buffer", r["disagreements"]):
         if not got.startswith("bad"):
             if "tie" not in seen:
                 seen.append("tie")
